@@ -104,9 +104,18 @@ def rule_pop(ctx):
             vals[label] = sim.probe_registry(hist, probe)
             if label == "not an iq":
                 kept = sim.last_registry_has("r1")
-        want = {"found": ("c", True), "unknown id": ("c", False), "not an iq": ("c", False), "other iq type": ("c", True)}
+            if label == "other iq type":
+                kept_req = sim.last_registry_has("r1")
+        # an iq that is not a reply (a server request - get / set - that happens to carry a pending id: own ids are "1",
+        # "2", ...) is an ordinary stanza: not consumed, and the pending entry stays for the real reply
+        want = {"found": ("c", True), "unknown id": ("c", False), "not an iq": ("c", False), "other iq type": ("c", False)}
         ok = all(vals[k] == want[k] for k in want)
         ctx.check("C08.pop", ok, w, "return value", "processIqRegistry must return True exactly when an entry was found (a consumed reply would otherwise also be dispatched as an ordinary stanza, or an ordinary stanza swallowed); got %s" % {k: show(v)[:12] for k, v in vals.items()}, "True iff an entry was found")
+        ctx.check("C08.pop", vals["other iq type"] == ("c", False) and kept_req, w, "only replies are matched",
+                  "an incoming iq request (type get / set) whose id equals a pending request's id %s: %s" % (
+                      "is consumed as if it were the reply" if vals["other iq type"] == ("c", True) else "is not handled as an ordinary stanza",
+                      "the pending entry is deleted without any callback, so the real reply never reaches its callback - and a server ping with that id gets no pong" if not kept_req else "the request is swallowed"),
+                  "a non-reply iq with a pending id is an ordinary stanza and leaves the entry alone")
         ctx.check("C08.pop", vals["not an iq"] == ("c", False) and kept, w, "only <iq> is looked up", "non-iq stanzas must not be matched against the registry", "a non-iq stanza with a pending id leaves the entry alone")
 
 
@@ -440,11 +449,12 @@ def oracle(history):
             outstanding.add(step[1])
         else:
             _, rid, rtype, tag = step
-            if tag == "iq" and rid in outstanding:
+            if tag == "iq" and rid in outstanding and rtype in ("result", "error"):
                 outstanding.discard(rid)
-                cbs = [("ok", rid)] if rtype == "result" else ([("err", rid)] if rtype == "error" else [])
-                exp.append((cbs, False))
+                exp.append(([("ok", rid)] if rtype == "result" else [("err", rid)], False))
             else:
+                # unknown id, replay, a non-iq stanza, or an iq REQUEST (get / set) that merely carries a pending id: an
+                # ordinary stanza - no callback, and a pending entry stays pending
                 exp.append(([], True))
     return exp
 
